@@ -70,6 +70,7 @@ LineOK(e) ==
     [] e.e = "ops"    -> OpsOK(e)
     [] e.e = "opcode" -> OpcodeOK(e)
     [] e.e = "scan"   -> ScanOK(e)
+    [] OTHER -> FALSE       \* e.g. a panic reported by the harness is never explained
 
 TraceInit == l = 1
 TraceNext == l <= Len(Rec) /\ LineOK(Rec[l]) /\ l' = l + 1
